@@ -67,6 +67,10 @@ class AgentServer(asyncio.Protocol):
                 # Step 3: Get a matching response from the answers queue
                 response_queue = self.answers_queues[addr]
                 response = await response_queue.get()
+                if response is None:
+                    # QuitGame was processed by the Coordinator - close the connection
+                    self.logger.info(f"Agent {addr} quit the game. Closing the connection.")
+                    break
                 self.logger.info(f"Sending response to agent {addr}: {response}")
 
                 # Step 4: Send the response to the agent
@@ -482,9 +486,15 @@ class GameCoordinator:
         Outputs: None
         """
         try:
-            await self.remove_agent(agent_addr, self._agent_states[agent_addr])
-            agent_info = await self._remove_agent_from_game(agent_addr)
-            self.logger.info(f"Agent {agent_addr} removed from the game. {agent_info}")
+            if agent_addr in self.agents:
+                await self.remove_agent(agent_addr, self._agent_states[agent_addr])
+                agent_info = await self._remove_agent_from_game(agent_addr)
+                self.logger.info(f"Agent {agent_addr} removed from the game. {agent_info}")
+            else:
+                self.logger.info(f"Agent {agent_addr} quit before joining the game.")
+            if agent_addr in self._agent_response_queues:
+                # the agent is still connected (explicit QuitGame) - tell its connection handler to close
+                await self._agent_response_queues[agent_addr].put(None)
         except asyncio.CancelledError:
             self.logger.debug(f"Proccessing QuitAction of agent {agent_addr} interrupted")
             raise  # Ensure the exception propagates
